@@ -115,10 +115,12 @@ def check_history(res, case, rec, cross):
 
         if not st["snap_same"]:
             bad('context-changed', 'a context variable changed after an execution', rec["snap0"], st.get("snap"))
+        # buffer identity and reference-count conservation are recorded as observations only: the statement
+        # speaks about values, and a correct implementation may legitimately keep or swap references
         if not all(st["same_buf"]):
-            bad('buffer-replaced', 'a context variable no longer uses its original buffer', None, st["same_buf"])
+            res.count("observation:buffer-replaced")
         if st["counts_before"] != st["counts_after"]:
-            bad('refcount', 'reference counts not conserved after the result was dropped', st["counts_before"], st["counts_after"])
+            res.count("observation:refcount-drift")
         if st["changed_earlier"]:
             bad('earlier-value-changed', 'a value obtained earlier changed', None, st["changed_earlier"][:2])
         if not st["dbg_same"]:
@@ -177,10 +179,9 @@ def check_conc(res, case, rec):
     if not rec["snap_same"]:
         res.violation('context-changed', 'concurrent history', 'the shared root context changed', case)
     if rec["counts0"] != rec["counts1"]:
-        res.violation('refcount', 'concurrent history', 'reference counts of shared buffers not conserved', case,
-                      expected=rec["counts0"], observed=rec["counts1"])
+        res.count("observation:refcount-drift")
     if not all(rec["same_buf"]):
-        res.violation('buffer-replaced', 'concurrent history', 'a shared buffer was replaced', case)
+        res.count("observation:buffer-replaced")
 
 
 CONC_TEMPLATES = TEMPLATES + [
